@@ -358,7 +358,12 @@ def merge_sems(fm, inners, constraints, mode, alignment, opts):
             if n not in sem.design:
                 sem.design.append(n)
         for cx in i.cxs:
-            sem.cxs.append(Cx(cx.factors, cx.preamble, cx.sustain, cx.scale))
+            ncx = Cx(cx.factors, cx.preamble, cx.sustain, cx.scale)
+            if mode == 'repeat' and i.T is not None and i.alignment != 'post preamble':
+                # the merged block repeats the inner block as it is: a scaled crossing whose last pass the inner block's own trial
+                # count cut short keeps that span (Merge([block]) == block)
+                ncx.span = max(1, i.T // cx.sustain - cx.preamble)
+            sem.cxs.append(ncx)
         sem.min_trials = max(sem.min_trials, i.min_trials)
         sem.excludes += i.excludes
         for (c, scope) in i.cons:      # "Constraints associated with a block apply to individual repetitions"
